@@ -119,7 +119,10 @@ def check_case(case):
         exp = brute(e1, e2, infr, infr2, amp, mode)
         for sq in (False, 'sum', 'mean'):
             try:
-                got = holospectrum(infr.copy(), infr2.copy(), amp.copy(), e1.copy(), e2.copy(), mode=mode, squash_time=sq)
+                a_, b_, c_ = infr.copy(), infr2.copy(), amp.copy()
+                got = holospectrum(a_, b_, c_, e1.copy(), e2.copy(), mode=mode, squash_time=sq)
+                if not (np.array_equal(a_, infr) and np.array_equal(b_, infr2) and np.array_equal(c_, amp)):
+                    viols.append(('input-modified', '%s mode=%s: an input array was changed by the call' % (describe(case), mode)))
             except Exception as ex:
                 viols.append(('raise:%s' % type(ex).__name__, '%s sq=%r raised %r' % (describe(case), sq, ex)))
                 continue
